@@ -333,7 +333,32 @@ static void gen_blob_case(hctx* h, fcase* fc, int codec, int kind, size_t n) {
     }
 }
 
+/* directed: level runs whose RLE run header sits at a varint length boundary (count << 1 = 2^7, 2^14, 2^21: runs of exactly
+ * 64, 8192, 1048576 equal levels and their neighbours), as the only run of a page and behind a short bit-packed prefix.
+ * One OPTIONAL (rep = 1) or REPEATED (rep = 2) INT32 column, one batch, one page. */
+static void gen_run_case(hctx* h, fcase* fc, int rep, long run, int prefix) {
+    memset(fc, 0, sizeof *fc);
+    fc->ncols = 1; snprintf(fc->cols[0].name, sizeof fc->cols[0].name, "r"); fc->cols[0].rep = rep; fc->cols[0].ptype = 1; fc->cols[0].tlen = 0;
+    fc->codec = 0; fc->page = 64 * 1024 * 1024; fc->nsteps = 1;
+    fstep* t = &fc->steps[0]; t->kind = 0; t->col = 0; t->has_defs = 1; t->has_reps = rep == 2;
+    long n = run + (prefix ? 3 : 0);
+    t->nrows = (int)n; t->defs = (uint8_t*)h_alloc((size_t)n); t->reps = (uint8_t*)h_alloc((size_t)n);
+    long k = 0;
+    if (prefix) { t->defs[k++] = 0; t->defs[k++] = 1; t->defs[k++] = 0; }
+    for (long i = 0; i < run; i++) t->defs[k++] = 1;
+    for (long i = 0; i < n; i++) t->reps[i] = 0;
+    int nn = 0; for (long i = 0; i < n; i++) nn += t->defs[i];
+    t->nvals = nn; t->vals = (uint8_t**)h_alloc((size_t)(nn ? nn : 1) * sizeof(uint8_t*)); t->vlen = (int*)h_alloc((size_t)(nn ? nn : 1) * sizeof(int));
+    for (int j = 0; j < nn; j++) { t->vals[j] = h_alloc(4); uint32_t v = (uint32_t)h_next(h); memcpy(t->vals[j], &v, 4); t->vlen[j] = 4; }
+}
+
 static void gen_file(hctx* h) {
+    { static const long runs[] = { 63, 64, 65, 8191, 8192, 8193, 8197, 16384 };
+      for (int i = 0; i < 8; i++) {
+          fcase fc; gen_run_case(h, &fc, 1 + (i % 2), runs[i], i % 3 == 0); run_case(h, &fc); free_case(&fc);
+          if (runs[i] == 8192 || runs[i] == 8197) { gen_run_case(h, &fc, 1, runs[i], 1); run_case(h, &fc); free_case(&fc); }
+      }
+      if (h->thorough) { fcase fc; gen_run_case(h, &fc, 1, 1048576, 0); run_case(h, &fc); free_case(&fc); gen_run_case(h, &fc, 1, 1048577, 1); run_case(h, &fc); free_case(&fc); } }
     { static const int bc[] = { 1, 5, 7, 6, 2, 0 };
       for (int ci = 0; ci < (h->thorough ? 6 : 3); ci++) {
           fcase fc;
